@@ -537,6 +537,22 @@ func oracleC06(c *Case, res *Result) []Violation {
 	if cold {
 		tag += "/coldcache"
 	}
+	unlockFailed, someFailed := false, false
+	for _, f := range res.Sim.Fired {
+		if strings.HasPrefix(f.Match, "l2.Unlock") {
+			unlockFailed = true
+		}
+	}
+	for _, t := range res.Txns {
+		if t.Outcome == "failed" {
+			someFailed = true
+		}
+	}
+	if unlockFailed && someFailed {
+		// a store lock that could not be released (injected Unlock failure) stays until its TTL and makes
+		// the undo of another transaction's failed commit fail: a double fault, not judged
+		return nil
+	}
 	for _, n := range perTask {
 		if n >= 2 {
 			// the second failure of one transaction can hit the undo of its failed commit; what a
